@@ -20,6 +20,8 @@ package cache
 import (
 	"sync"
 	"time"
+
+	"google.golang.org/grpc/internal/verifhook"
 )
 
 type cacheEntry struct {
@@ -69,6 +71,7 @@ func (c *TimeoutCache) Add(key, item any, callback func()) (any, bool) {
 		callback: callback,
 	}
 	entry.timer = time.AfterFunc(c.timeout, func() {
+		verifhook.At("tcache.timer", c)
 		c.mu.Lock()
 		if entry.deleted {
 			c.mu.Unlock()
@@ -77,6 +80,7 @@ func (c *TimeoutCache) Add(key, item any, callback func()) (any, bool) {
 		}
 		delete(c.cache, key)
 		c.mu.Unlock()
+		verifhook.At("tcache.cb", c)
 		entry.callback()
 	})
 	c.cache[key] = entry
